@@ -4,6 +4,7 @@ import (
 	"fmt"
 	"reflect"
 	"strings"
+	"sync"
 	"time"
 
 	"k8s.io/klog"
@@ -180,6 +181,10 @@ func (f *localWrapper) Sync(schema proxyv1alpha1.FlowControlSchema) {
 
 	if !EnableGlobalFlowControl(schema) {
 		f.flowControlCache.stopRemoteWrapper()
+	} else if remote := f.flowControlCache.remote; remote != nil {
+		// the quota in force was bounded by the global limit of the previous
+		// schema: bound it by the new one now, not at the next server answer
+		remote.rebound()
 	}
 
 	return
@@ -190,6 +195,9 @@ type remoteWrapper struct {
 	remoteConfig     proxyv1alpha1.RateLimitItemConfiguration
 	flowControlCache *flowControlCache
 	stopCh           chan struct{}
+	// syncLock serializes Sync: the reconcile loop applies server answers, the
+	// cluster controller re-bounds the quota in force when the schema changes
+	syncLock sync.Mutex
 }
 
 func (f *remoteWrapper) Config() proxyv1alpha1.RateLimitItemConfiguration {
@@ -204,6 +212,17 @@ func (f *remoteWrapper) Pin() flowcontrol.FlowControl {
 	return f.GlobalCounterFlowControl
 }
 
+// rebound applies the limits of the current schema to the quota in force.
+func (f *remoteWrapper) rebound() {
+	f.syncLock.Lock()
+	synced := f.GlobalCounterFlowControl != nil
+	config := f.remoteConfig
+	f.syncLock.Unlock()
+	if synced {
+		f.Sync(config)
+	}
+}
+
 func (f *remoteWrapper) Sync(limitItem proxyv1alpha1.RateLimitItemConfiguration) {
 	limitItem, ok := f.sanitize(limitItem)
 	if !ok {
@@ -211,6 +230,9 @@ func (f *remoteWrapper) Sync(limitItem proxyv1alpha1.RateLimitItemConfiguration)
 			f.flowControlCache.cluster, limitItem.Name, limitItem.LimitItemDetail)
 		return
 	}
+
+	f.syncLock.Lock()
+	defer f.syncLock.Unlock()
 
 	if reflect.DeepEqual(limitItem, f.remoteConfig) {
 		return
